@@ -223,6 +223,15 @@ class OpGen:
                 d.tag("op.alias")
             key = alias or fname
             ck = canon(key)
+            fam = getattr(self, "_family_keys", None)
+            if fam is not None and depth == 1 and in_fragment is not None and ck in fam:
+                # fragments of one same-type family get disjoint response keys, so that several of them can be
+                # spread side by side
+                free = [a for a in ALIASES + [f"{fname}{len(fam)}", f"k{len(fam)}"] if canon(a) not in fam and canon(a) not in scope]
+                if not free:
+                    continue
+                alias = d.choice(free)
+                key, ck = alias, canon(alias)
             if not ck or ck in scope or ck == "typename":
                 continue
             if is_composite_type(named) and depth >= self.max_depth:
@@ -300,10 +309,11 @@ class OpGen:
                     if inline_depth == 0:
                         scope["__inl_direct"] = True
         # spreads of already generated fragments
+        direct_mixins = []  # fragments written at THIS level that become base classes
         applicable = [f for f in self.frag_order
                       if f != in_fragment and relation(self.schema, parent, self.schema.type_map[self.fragments[f]["type"]])]
         if applicable and d.bool(max(self.frag_p, 0.8) if in_fragment is not None else self.frag_p):
-            chosen_frags = d.sample(applicable, d.int(1, 3))
+            chosen_frags = d.sample(applicable, d.int(1, 3 if len(applicable) < 4 else 4))
             if d.bool(0.4):
                 # also try one dependency of a chosen fragment at the same level (fragment "triangle"), half of the time
                 # one the fragment only uses in a nested field
@@ -408,6 +418,8 @@ class OpGen:
                     self.frag_use.setdefault(x, mode)
                 spread_here.append(fname)
                 self.frag_mode_here[fname] = mode
+                if mode == "mixin":
+                    direct_mixins.append(fname)
                 if in_fragment is not None and rel != "same" and is_abstract_type(parent):
                     self._cur_narrow_spread = True
                     self._cur_narrow_targets.add(fr["type"])
@@ -439,6 +451,9 @@ class OpGen:
                     self._cur_guarded.update(fr.get("guards", ()))
                     if rel != "same":
                         self._cur_narrow = True
+        if inline_depth == 0 and len(direct_mixins) >= 3 and any(
+                a in self.fragments[b]["inh"] for a in direct_mixins for b in direct_mixins if a != b):
+            d.tag("op.three_bases_with_derivation")  # class X(A, B, C) where one base derives from another
         if not items:
             if is_union or not names:
                 if "typename" in scope:
@@ -464,12 +479,23 @@ class OpGen:
         names = pick_names(d, n, set(self._taken), [(1, FRAG_NAMES)])
         roots = (self.desc.query, self.desc.mutation, self.desc.subscription)
         types = []
+        same_family = None
         abstract = [c for c in self.composites if is_abstract_type(c) and c.name not in roots]
         if len(names) >= 2 and self.root_family_p and d.bool(self.root_family_p):
             # fragments on the query root that can spread each other (result classes with base-class chains)
             for _ in range(d.int(2, min(3, len(names)))):
                 types.append(self.schema.query_type)
             d.tag("frag.root_family")
+        elif len(names) >= 3 and d.bool(0.3):
+            # several fragments on ONE type: result classes with three or four fragment bases, some deriving from others
+            objs = [c for c in self.composites if c.name not in roots and not is_abstract_type(c)] or \
+                   [c for c in self.composites if c.name not in roots]
+            if objs:
+                t0 = d.choice(objs)
+                for _ in range(d.int(3, min(4, len(names)))):
+                    types.append(t0)
+                same_family = (t0.name, len(types))
+                d.tag("frag.same_type_family")
         elif len(names) >= 2 and self._recursive_types() and d.bool(0.35):
             # several fragments on one self-referential type: a later one can use an earlier one for the nested
             # occurrence of the type only, and both can be spread side by side
@@ -497,7 +523,10 @@ class OpGen:
             if t.name in roots and d.bool(self.root_frag_reroll_p):
                 t = d.choice(self.composites)
             types.append(t)
-        for name, t in zip(names, types):
+        family_keys = set()
+        for idx, (name, t) in enumerate(zip(names, types)):
+            in_family = same_family is not None and idx < same_family[1]
+            self._family_keys = family_keys if in_family else None
             self._taken.add(canon(name))
             self._cur_deps = set()
             self._cur_inh = set()
@@ -510,6 +539,7 @@ class OpGen:
             scope = {}
             self.vars = None  # fragments use literals only (variables would have to be declared by every user)
             sub = self.selection_set(t, 1, scope, in_fragment=name)
+            self._family_keys = None
             if sub is None:
                 continue
             alldeps = set(self._cur_deps)
@@ -537,6 +567,8 @@ class OpGen:
             me["narrowing_deep"] = me["inline"] or self._cur_narrow or any(
                 self.fragments[x]["narrowing_deep"] for x in me["deps"]
             )
+            if in_family:
+                family_keys.update(k2 for k2 in scope if not k2.startswith("__"))
             self.frag_order.append(name)
             d.tag("frag.on_" + type(t).__name__.replace("GraphQL", "").replace("Type", "").lower())
 
